@@ -293,6 +293,7 @@ def c18(ctx, rep):
     output_rules.rule_path_highlight(ctx, rep)
     output_rules.rule_context_annotations(ctx, rep)
     output_rules.rule_json_envelope(ctx, rep)
+    output_rules.rule_main_detect(ctx, rep)
     detectors.rule_renderings(ctx, rep)
     cfg_rules.rule_call_graph(ctx, rep)
     effects.rule_block_provenance(ctx, rep)
